@@ -43,9 +43,16 @@ def run(ctx):
 
     nr = (300 if ctx.tier == "quick" else 2000) * (3 if ctx.broken else 1)
     mms = {}
+    # models: the tier's models plus (quick tier) two further models per ISA drawn per run -- latencies differ between models,
+    # and an edge that carries the wrong one of two latencies shows only where they differ
+    role_archs = {}
+    for isa_ in ("x86", "aarch64"):
+        base = list(corpus.archs_of(isa_, ctx.tier == "quick"))
+        others = [a for a in corpus.archs_of(isa_, False) if a not in base]
+        role_archs[isa_] = base + ctx.rng.sample(others, min(2, len(others)))
     for t in range(nr):
         isa = "x86" if t % 2 == 0 else "aarch64"
-        arch = ctx.rng.choice(corpus.archs_of(isa, ctx.tier == "quick"))
+        arch = ctx.rng.choice(role_archs[isa])
         fd = (t // 2) % 2 == 1
         lines, rl = roles.gen(ctx.rng, isa, ctx.rng.randint(2, 8), npool=ctx.rng.choice([2, 3, 4]), flags=fd)
         if arch not in mms:
@@ -76,6 +83,27 @@ def run(ctx):
         ctx.count("role_edges", len(ref))
         if ref:
             distinct.add(repr((isa, lines)))
+        # edge weights, judged from the instruction TEXT: an edge through a register that the producer changes only by address
+        # write-back carries the model's index-write-back latency, every other edge the producer's latency without load stage
+        if impl == ref and isa == "aarch64":
+            regs = roles.reference_raw_regs(rl, fd)
+            pidx = mms[arch].get("p_index_latency")
+            ew = im.edges()
+            for (i, j), rs in sorted(regs.items()):
+                wb = roles.writeback_regs(lines[i], rl[i])
+                kinds = {("wb" if r in wb else "plain") for r in rs}
+                if len(kinds) != 1 or pidx is None:
+                    continue
+                lat = k[i].latency_wo_load if k[i].latency_wo_load is not None else k[i].latency
+                want = float(pidx) if kinds == {"wb"} else float(lat or 0)
+                got = ew.get((str(i + 1), str(j + 1)))
+                ctx.count("role_edge_weights")
+                if got is not None and abs(float(got) - want) > 1e-9:
+                    ctx.violation("edge %d -> %d (`%s` -> `%s`) carries latency %s; the producer's latency is %s and the edge is %s"
+                                  % (i + 1, j + 1, lines[i], lines[j], got, lat,
+                                     "a write-back edge (index-write-back latency %s)" % pidx if kinds == {"wb"} else "not a write-back edge"),
+                                  dict(im.info(), edge=[i + 1, j + 1], weight=got, expected=want))
+                    break
         if impl != ref:
             miss, extra = sorted(ref - impl), sorted(impl - ref)
             if miss:
@@ -142,7 +170,12 @@ def replay_common(ctx, path, pid):
         return 1
     ctx.env = core.Env(pid)
     ctx.env.activate()
-    im = dgcheck.Impl(rep["isa"], rep["arch"], rep["kernel"], rep.get("flag_deps", False))
+    if "reanalysed_after_flag_deps" in rep:
+        im = dgcheck.Impl(rep["isa"], rep["arch"], rep["kernel"], rep["reanalysed_after_flag_deps"])
+        im = im.reanalysed(rep.get("flag_deps", False), sub=rep.get("reanalysed_sub_range"))
+        print("(second analysis of the same instruction-form objects)")
+    else:
+        im = dgcheck.Impl(rep["isa"], rep["arch"], rep["kernel"], rep.get("flag_deps", False))
     print("edges:", sorted(im.edges().items()))
     print("critical path:", im.cp())
     print("LCD:", sorted(im.lcd_set()))
